@@ -95,10 +95,13 @@ def _traffic(args):
             esc = S.run_session(drv.engine, c, tls_client_auth=True)
             gen.observe(None, drv.state())
             recs.append({"id": "w%d:req%d" % (wid, i), "kind": "any", "bytes": data} if not damaged else None)
-            ver = req["ver"][0] * 10 + req["ver"][1]
+            # the version the request states ON THE WIRE (a damaged frame that still decodes may state another one)
+            pv = m.request_header.protocol_version if decoded else None
+            wire = (pv.major, pv.minor) if pv is not None else None
+            ver = wire[0] * 10 + wire[1] if wire else -1
             for j, resp in enumerate(c.sent):
                 recs.append({"id": "w%d:resp%d.%d" % (wid, i, j), "kind": "response", "bytes": resp,
-                             "reqver": ver if (decoded and c.cert is not None and tuple(req["ver"]) in G.VERSIONS) else -1})
+                             "reqver": ver if (decoded and c.cert is not None and wire in G.VERSIONS) else -1})
             if len(c.sent) != 1 or esc:
                 recs.append({"id": "w%d:noresp%d" % (wid, i), "kind": "missing", "bytes": b"", "what": "%d responses, escaped %s" % (len(c.sent), esc),
                              "request": data.hex()})
